@@ -333,7 +333,13 @@ func run() int {
 					continue
 				}
 				fname := fmt.Sprintf("%04d_%s", i, sanitize(res.O.Name))
-				rr := solve.Race(tmp, fname, res.Script.Text, timeout, res.Script.HasQ, *tier == "thorough")
+				to := timeout
+				if res.O.Expect == "sat" && res.Script.HasQ && to > 2 {
+					// cover checks under quantified assumptions rarely come back sat; the quantifier-free
+					// retry below is the deciding query, so do not wait long here
+					to = 2
+				}
+				rr := solve.Race(tmp, fname, res.Script.Text, to, res.Script.HasQ, *tier == "thorough")
 				res.Res = rr
 				res.Solver = rr.By
 				res.Time = rr.Time
